@@ -1044,6 +1044,159 @@ static void sc_fetch_obs_big(void) {
   fetch_observe(UP_LEN);
 }
 
+/* ---- scripted peers (raw datagrams): what a libcoap peer never does */
+#define NS_BLK 64            /* szx = 2 */
+#define NS_LEN 300           /* 5 blocks, the last one short */
+
+static void sc_up_nosize(void) {
+  /* Block1 upload by a peer that does not announce the size (no Size1): the server's
+   * reassembly buffer has to grow with every block (coap_block_build_body -> coap_resize_binary) */
+  prologue(COAP_BLOCK_USE_LIBCOAP | COAP_BLOCK_SINGLE_BODY);
+  coap_address_t peer;
+  vn_addr4(&peer, 0x0a000001u, 40000);
+  int nblk = (NS_LEN + NS_BLK - 1) / NS_BLK, acked = 0, last_code = 0;
+  for (int i = 0; i < nblk; i++) {
+    uint8_t m[16 + NS_BLK];
+    size_t o = 0, off = (size_t)i * NS_BLK, n = NS_LEN - off < NS_BLK ? NS_LEN - off : NS_BLK;
+    int more = i + 1 < nblk;
+    m[o++] = 0x41;                       /* CON, TKL 1 */
+    m[o++] = COAP_REQUEST_CODE_PUT;
+    m[o++] = 0x10;
+    m[o++] = (uint8_t)i;                 /* mid */
+    m[o++] = 0x77;                       /* token */
+    m[o++] = 0xB2; m[o++] = 'u'; m[o++] = 'p';             /* Uri-Path "up" */
+    m[o++] = 0xD1; m[o++] = 27 - 11 - 13;                  /* Block1, 1 byte */
+    m[o++] = (uint8_t)((i << 4) | (more << 3) | 2);
+    m[o++] = 0xFF;
+    memcpy(m + o, up_body + off, n);
+    o += n;
+    size_t before = vn_nout;
+    vn_inject_ep(W.srv, W.ep, &peer, NULL, m, o);
+    /* the reply to the peer is in the log (nobody is registered for that address) */
+    for (size_t k = before; k < vn_nout; k++)
+      if (vn_out[k].len >= 4 && vn_out[k].data[3] == (uint8_t)i && vn_out[k].data[2] == 0x10) {
+        last_code = vn_out[k].data[1];
+        if (last_code == COAP_RESPONSE_CODE_CONTINUE || last_code == COAP_RESPONSE_CODE_CHANGED) acked++;
+      }
+    W.cursor = vn_nout;
+    if (last_code >= 128) break;         /* error response: the peer gives up */
+  }
+  R("acked=%d code=%d put=%d putlen=%zu", acked, last_code, W.n_put, W.put_len);
+  if (W.n_put && (W.put_len != NS_LEN || W.put_hash != fnv(up_body, NS_LEN)))
+    R("bad=wrong-body-at-server");
+  if (W.n_put > 1) R("bad=request-delivered-%d-times", W.n_put);
+  finish_with_canary();
+  world_down();
+}
+
+static void sc_down_nosize(void) {
+  /* Block2 download from a peer that omits Size2 (and ETag): the client's reassembly buffer has
+   * to grow with every block */
+  prologue(COAP_BLOCK_USE_LIBCOAP | COAP_BLOCK_SINGLE_BODY);
+  coap_address_t fake;
+  vn_addr4(&fake, VN_LOOPBACK, 9);
+  coap_session_t *fs = vn_new_client(W.cli, &fake);
+  R("sess=%d", fs != NULL);
+  if (fs) {
+    coap_session_t *keep = W.cs;
+    W.cs = fs;
+    coap_pdu_t *p = mk_req(fs, COAP_MESSAGE_CON, COAP_REQUEST_CODE_GET, "x", NULL, NULL);
+    W.cs = keep;
+    R("pdu=%d", p != NULL);
+    if (p) R("send=%d", send_tracked(fs, p) != COAP_INVALID_MID);
+    int nblk = (NS_LEN + NS_BLK - 1) / NS_BLK, served = 0;
+    size_t scan = 0;
+    for (int guard = 0; guard < 40 && served < nblk; guard++) {
+      /* find the next request of the client that was not answered yet */
+      int found = 0;
+      for (; scan < vn_nout; scan++) {
+        vn_dgram_t *d = &vn_out[scan];
+        if (d->session != fs || d->len < 4 || (d->data[1] >> 5) != 0 || d->data[1] == 0) continue;
+        unsigned tkl = d->data[0] & 15;
+        if (4 + tkl > d->len || tkl > 8) continue;
+        uint8_t m[32 + NS_BLK];
+        size_t o = 0, off = (size_t)served * NS_BLK, n = NS_LEN - off < NS_BLK ? NS_LEN - off : NS_BLK;
+        int more = served + 1 < nblk;
+        m[o++] = (uint8_t)(0x60 | tkl);                    /* ACK */
+        m[o++] = COAP_RESPONSE_CODE_CONTENT;
+        m[o++] = d->data[2];
+        m[o++] = d->data[3];
+        memcpy(m + o, d->data + 4, tkl);
+        o += tkl;
+        m[o++] = 0xD1; m[o++] = 23 - 13;                   /* Block2, 1 byte */
+        m[o++] = (uint8_t)((served << 4) | (more << 3) | 2);
+        m[o++] = 0xFF;
+        memcpy(m + o, big_body + off, n);
+        o += n;
+        scan++;
+        served++;
+        found = 1;
+        vn_inject_session(W.cli, fs, m, o);
+        break;
+      }
+      if (!found) {
+        /* nothing to answer: let the client's timers run (retransmission of a dropped request) */
+        unsigned w = vn_prepare(W.cli);
+        if (!w || scan < vn_nout) {
+          if (!w) break;
+          continue;
+        }
+        if (w > 100000) break;
+        vn_advance(w);
+      }
+    }
+    W.cursor = vn_nout;
+    R("served=%d resp=%d code=%d len=%zu", served, W.n_resp, W.last_code, W.last_len);
+    if (W.n_resp && W.last_code == COAP_RESPONSE_CODE_CONTENT) {
+      if (W.last_len < NS_LEN) R("bad=partial-body-delivered");
+      else if (W.last_len != NS_LEN || W.last_hash != fnv(big_body, NS_LEN)) R("bad=corrupt-body");
+    }
+    if (W.n_resp > 1) R("bad=response-delivered-%d-times", W.n_resp);
+  }
+  finish_with_canary();
+  if (fs) {
+    vn_unregister_client(fs);
+    coap_session_release(fs);
+  }
+  world_down();
+}
+
+static void wellknown(int nres) {
+  /* GET /.well-known/core with a listing that does not fit the initial 256-byte PDU buffer
+   * (nres = 4: about 450 bytes) and one that needs Block2 (nres = 14: about 1500 bytes) */
+  prologue(COAP_BLOCK_USE_LIBCOAP | COAP_BLOCK_SINGLE_BODY);
+  for (int i = 0; i < nres; i++) {
+    char name[100];
+    memset(name, 'a' + i, 90);
+    snprintf(name + 90, sizeof(name) - 90, "%d", i);
+    coap_resource_t *r = mkres(name, h_small, NULL);
+    coap_attr_t *a = r ? coap_add_attr(r, coap_make_str_const("rt"),
+                                       coap_make_str_const("\"sensor\""), 0) : NULL;
+    R("r%d=%d%d", i, r != NULL, a != NULL);
+    if (r) coap_add_resource(W.srv, r);
+  }
+  coap_pdu_t *p = mk_req(W.cs, COAP_MESSAGE_CON, COAP_REQUEST_CODE_GET, ".well-known", NULL, NULL);
+  if (p && !coap_add_option(p, COAP_OPTION_URI_PATH, 4, (const uint8_t *)"core")) {
+    coap_delete_pdu(p);
+    p = NULL;
+  }
+  R("pdu=%d", p != NULL);
+  if (p) R("send=%d", send_tracked(W.cs, p) != COAP_INVALID_MID);
+  pump(200000);
+  R("resp=%d code=%d len=%zu h=%08x", W.n_resp, W.last_code, W.last_len, W.last_hash);
+  if (W.n_resp > 1) R("bad=response-delivered-%d-times", W.n_resp);
+  finish_with_canary();
+  world_down();
+}
+
+static void sc_wk_mid(void) {
+  wellknown(4);
+}
+
+static void sc_wk_big(void) {
+  wellknown(14);
+}
+
 static void sc_async(void) {
   /* separate response through coap_register_async (empty ACK first, CON response later) */
   prologue(COAP_BLOCK_USE_LIBCOAP | COAP_BLOCK_SINGLE_BODY);
@@ -1487,6 +1640,7 @@ static const scen_t scens[] = {
   {"observe_l1", sc_observe_l1}, {"observe_l2", sc_observe_l2}, {"echo_l1", sc_echo_l1},
   {"async_l1", sc_async_l1}, {"cache_l1", sc_cache_l1}, {"oscore_l1", sc_oscore_l1},
   {"qblock_l1", sc_qblock_l1}, {"obs_big_l1", sc_obs_big_l1},
+  {"up_nosize", sc_up_nosize}, {"down_nosize", sc_down_nosize}, {"wk_mid", sc_wk_mid}, {"wk_big", sc_wk_big},
   {"fetch_obs", sc_fetch_obs}, {"fetch_obs_big", sc_fetch_obs_big}, {"fetch_obs_l1", sc_fetch_obs_l1},
   {NULL, NULL}};
 
